@@ -33,6 +33,11 @@ def gen_cfg(rnd, i=0):
         cfg["explainer"] = ["sage", "pfi", "interval", "sage"][(i // 4) % 4]
     elif i % 12 == 5:       # rarely drawn combination made certain: batch explainer in original mode on a plain storage
         cfg.update(explainer="batch", original_sage=True, storage=["batch", "uniform"][(i // 12) % 2], imputer="joint", steps=15)
+    elif i % 12 == 1:       # explain_many over in-memory lists, then explain_one calls
+        cfg.update(explainer="batch-many", storage="batch", imputer="joint", steps=12, model=["linear", "antisym", "sparse-labels"][(i // 12) % 3])
+    elif i % 12 == 2:       # TreeStorage + TreeImputer on a drifting stream (alternate subtrees in the adaptive trees)
+        cfg.update(explainer=["sage", "pfi"][(i // 12) % 2], storage="tree", imputer=["tree-model", "tree-storage"][(i // 24) % 2], steps=520, drift=True,
+                   n_inner=[1, 2][(i // 12) % 2], d=3)
     elif i % 12 == 9:       # ... and explainers built entirely from library defaults
         cfg.update(explainer=["sage", "pfi"][(i // 12) % 2], storage="library-default", imputer="joint")
     return cfg
@@ -245,20 +250,44 @@ def scenario_gen(cfg, seed):
     elif kind == "pfi":
         e = IncrementalPFI(model, loss, names, smoothing_alpha=cfg["alpha"], storage=st, imputer=imp,
                            n_inner_samples=cfg["n_inner"], dynamic_setting=cfg["dyn"])
+    elif kind == "batch-many":
+        # explain_many over the user's in-memory lists on an EMPTY BatchStorage (DefaultImputer needs no background), then explain_one
+        # calls: the same list objects are replayed, like a data set kept in memory by the caller
+        st = BatchStorage(store_targets=True)
+        st_kind = "batch"
+        e = BatchSage(model, names, loss, n_inner_samples=cfg["n_inner"], storage=st,
+                      imputer=DefaultImputer(model, {n: 0.25 * (j + 1) for j, n in enumerate(names)}))
     elif kind == "batch":
         e = BatchSage(model, names, loss, n_inner_samples=cfg["n_inner"], storage=st, imputer=imp)
     else:
         e = IntervalSage(model, names, loss, n_inner_samples=cfg["n_inner"], interval_length=3, storage_length=max(size, 2),
                          storage=st, imputer=imp)
-    steps = cfg["steps"] if kind not in ("batch",) else min(cfg["steps"], 15)
-    skey = (cfg["stream_seed"], d, cfg["names"], steps)
+    steps = cfg["steps"] if kind not in ("batch", "batch-many") else min(cfg["steps"], 15)
+    skey = (cfg["stream_seed"], d, cfg["names"], steps, bool(cfg.get("drift")))
     if skey not in _STREAMS:
         srnd = random.Random(cfg["stream_seed"])
-        _STREAMS[skey] = [({n: (float(srnd.randrange(3)) if j == 0 else srnd.gauss(0, 1)) for j, n in enumerate(names)}, srnd.gauss(0, 1))
-                          for _ in range(steps)]
+        if cfg.get("drift"):      # recurring abrupt concept drift in the relation between the numeric features: the adaptive regression
+            rows = []             # trees of a TreeStorage grow ALTERNATE subtrees (an instance then reaches several leaves at once)
+            for t in range(steps):
+                ph = (t // 200) % 2
+                c = float(srnd.randrange(3))
+                b = srnd.gauss(0, 1)
+                vals = [c, b, (3.0 * b if ph == 0 else -3.0 * b) + srnd.gauss(0, 0.1) + 5 * (c == ph), srnd.gauss(0, 1)]
+                rows.append(({n: vals[j] for j, n in enumerate(names)}, srnd.gauss(0, 1)))
+            _STREAMS[skey] = rows
+        else:
+            _STREAMS[skey] = [({n: (float(srnd.randrange(3)) if j == 0 else srnd.gauss(0, 1)) for j, n in enumerate(names)}, srnd.gauss(0, 1))
+                              for _ in range(steps)]
+    if kind == "batch-many":
+        lkey = ("lists",) + skey
+        if lkey not in _STREAMS:
+            _STREAMS[lkey] = ([x for x, _ in _STREAMS[skey][:8]], [y for _, y in _STREAMS[skey][:8]])
+        xs_, ys_ = _STREAMS[lkey]
+        r0 = e.explain_many(xs_, ys_, verbose=False)
+        yield hashlib.sha256(repr((sorted((repr(k), fhex(v)) for k, v in r0.items()), len(xs_), len(ys_))).encode()).hexdigest()[:12]
     for t in range(steps):
         x, y = _STREAMS[skey][t]
-        if kind == "batch":
+        if kind in ("batch", "batch-many"):
             r = e.explain_one(x, y, verbose=False, original_sage=cfg.get("original_sage", False))
         elif kind == "interval":
             r = e.explain_one(x, y, verbose=False)
@@ -330,8 +359,8 @@ def main(run):
             b = scenario(cfg, seed)
             keep = junk(jrnd)
             c = scenario(cfg, seed)
-            other = scenario(cfg, seed + 1)
-            ident = scenario(dict(cfg, output_identity="shared"), seed) if cfg.get("model") not in STATEFUL_MODELS else None
+            other = scenario(cfg, seed + 1) if not cfg.get("drift") else None
+            ident = scenario(dict(cfg, output_identity="shared"), seed) if cfg.get("model") not in STATEFUL_MODELS and not cfg.get("drift") else None
             del keep
         except Exception as ex:
             run.ok(kind="in-process")
@@ -350,7 +379,10 @@ def main(run):
             step = next((i for i, (p, q) in enumerate(zip(a, ident)) if p != q), None)
             run.violation("object-identity-dependence", f"cfg {cfg}: a model handing out the same dict object for equal inputs (instead of equal "
                                                         f"fresh dicts) changes the results from call {step} on", replay)
-        if other != a:
+        if other is None:
+            run.nontriv(cfg)
+            run.count("drift-scenarios")
+        elif other != a:
             run.nontriv(cfg)
             run.count("seed-sensitive-scenarios")
         else:
@@ -359,6 +391,8 @@ def main(run):
             run.sample({"cfg": cfg, "seed": seed, "digests_first_calls": a[:4], "replay_equal": a == b, "after_junk_equal": a == c,
                         "other_seed_differs": other != a})
         cfg_b = dict(gen_cfg(rnd, i + 1), steps=cfg["steps"] + 5)
+        if cfg.get("drift"):
+            continue
         try:
             d_int = interleaved(cfg, seed, cfg_b, seed + 7)
             run.ok(kind="interleaved-twin")
